@@ -211,7 +211,7 @@ def work(shard, res, tier, seed):
         # that was passed in, whatever was solved before)
         dbs = [load_db("manager"), load_db("automated")]
         pairs = G.deletions(rng, shard["entries"]) + G.redox_family(rng, shard["entries"] // 4) + \
-            G.dihalogen_oxygen_loss(rng, shard["entries"] // 4)
+            G.dihalogen_oxygen_loss(rng, shard["entries"] // 4) + G.completion_prefix_collisions(rng, shard["entries"] // 4)
         for k, (tag, rx) in enumerate(pairs):
             for db in (dbs if k % 2 == 0 else dbs[::-1]):
                 entry_one(rx, db, res)
